@@ -249,6 +249,7 @@ fn worker(args: &[String]) -> i32 {
     let end: usize = args[3].parse().unwrap();
     match kind {
         "c05" => seq_crash::worker(thorough, start, end),
+        "c09" => seq_resolve::worker(thorough, start, end),
         "c14" => seq_yaml::worker(thorough, start, end),
         "c16" => seq_watch::worker(thorough, start, end),
         _ => return 2,
